@@ -1565,6 +1565,30 @@ def client_checks(ck_rng, thorough):
                     f'{cap.got}, the property requires {exp} with logs '
                     f'{logs_before}', {'sequence': line}, True))
 
+    # (1b) `_recv_log_error_until_empty` as it is (incl. the known defect)
+    for k in range(0, 4):
+        for seq in it.product(toks, repeat=k):
+            c = FakeConn('peer', [])
+            comp = new_client_compiler(c)
+            for tok, x in seq:
+                c.inbox.append(wire(tok, x))
+            try:
+                comp._recv_log_error_until_empty()
+                got = 'clean'
+            except RuntimeError as e:
+                t = str(e)
+                got = (f'raised {t.split("-")[1]}' if t.startswith('boom-')
+                       else 'unexpected' if 'Unexpected message' in t
+                       else f'raised ?{t}')
+            except AttributeError:
+                got = 'attributeError'
+            except Exception as e:
+                got = f'crashed {type(e).__name__}'
+            lines.append('predrain ' + ' '.join(
+                tok if x is None else f'{tok} {x}' for tok, x in seq))
+            impl.append(got)
+            stats['predrain_sequences'] += 1
+
     # (2) the API calls
     class Peer(FakeConn):
         __slots__ = ('replies',)
